@@ -118,7 +118,10 @@ CLAIMED['C13'] = dict(
          'class) from the same op started with an empty cache, the entry it leaves behind satisfies the invariant again '
          '(entry => that class has that method / field index, and no instance field shadows a cached method), and entries of '
          'other sites are untouched. This is "behaves as with every lookup forced to the slow path" for every receiver and class '
-         'table. The clause about classes collected and re-created at the same address needs address reuse, which is not modelled.',
+         'table. The clause about classes collected and re-created at the same address is decided as a reachability fact: every class '
+         'and method an entry names is kept alive by the Vm\'s roots (C05.K1.roots_vm / trace_inline_cache), so an address named by an '
+         'entry cannot be handed to another class (found and fixed F46: the caches were not traced, a stale entry was hit after a '
+         'collection - segmentation fault on the gc_stress build).',
     note='Trusted: rustc MIR printer, mirsym, abstract object identities, call summary at resolve_call, Z3. Assumes class tables '
          'are immutable once instances exist and slot ids are in range (C19).',
     ref='§4 C13')
@@ -159,8 +162,8 @@ CLAIMED['C05'] = dict(
          '(collect_garbage, sweeps, collect_garbage_with_value) from an arbitrary mark state frees exactly the unmarked, keeps every '
          'marked object, releases nothing twice, sweeps only after the context and every temporary root were traced, roots the '
          'newborn object and leaves no intern entry pointing at a released string. Fields that are redundant by a stated invariant '
-         '(iterator `current` mirrored in Enumerator.current, error classes, Class.init, Vm.builtin / global_module / current_fun, the '
-         'weak inline caches) are listed as assumptions, not checked. Not decided: the element loops of the managed containers\' own '
+         '(iterator `current` mirrored in Enumerator.current, error classes, Class.init, Vm.builtin / global_module / current_fun) '
+         'are listed as assumptions, not checked; the inline caches, first assumed weak, are now required to be traced (F46). Not decided: the element loops of the managed containers\' own '
          'traces (Array, UniqueVector, RawSharedVector), `dyn` natives and enumerators (listed as not encoded in the evidence), and the '
          'composition into "same output under every collection schedule". C05.K3 temporary-root discipline: every native of laythe_lib '
          '(the C16.K4 sweep, about 115 of 123 decided) and every `impl Enumerate::next` runs from MIR with every call observed; on each '
